@@ -43,7 +43,7 @@ fn nontrivial(s: &Stats, _c: &Case) -> bool {
     s.has("multi_table_image") && s.has("freed_then_allocated")
 }
 
-fn report(c: &Case) -> CaseReport {
+pub fn report(c: &Case) -> CaseReport {
     let every = if is_large(c) { 8 } else { 1 };
     let out = crate::run::run_case(c, oracles(every), None);
     // classify the final image with the parser: several FAT / DIFAT / dir / MiniFAT sectors
@@ -62,7 +62,7 @@ fn history_report_from(c: &Case, out: crate::run::Outcome) -> CaseReport {
     CaseReport { fail: out.result.err(), nontrivial: nt, classes, excluded: s.excluded, evaluations: 1, nontrivial_items: vec![], trace: out.trace }
 }
 
-fn strategy(tier: Tier) -> BoxedStrategy<Case> {
+pub fn strategy(tier: Tier) -> BoxedStrategy<Case> {
     let p = crate::props::c02::profile(tier);
     let large_w = if tier == Tier::Thorough { 2 } else { 1 };
     prop_oneof![
